@@ -284,3 +284,26 @@ Theorem C03_chain_n_hops :
       exists g0 ps, In g0 G0 /\ fst fr = gid g0 /\ compose rs (parts g0) = Some ps /\ app_view (snd fr) = vis ps.
 Proof. exact chain_n_sink. Qed.
 Print Assumptions C03_chain_n_hops.
+
+(* "Returning None removes exactly that frame from what the downstream chain sees": a source frame for which some relay of the
+   chain returned None (the composition is None) is handed to the sink under no id; and the tee: the branches see prefixes of one
+   and the same published sequence. *)
+From OF Require Import Proto.ChainMore.
+Theorem C03_none_removes_frame :
+  forall nout0 req0 sits0 sid0 rs cid ll rits,
+    let G0 := groups_of sid0 (snd (srun (init_sender nout0 false req0) sits0)) in
+    chain_ok G0 rs -> Forall group_wf (last_groups G0 rs) -> Edge.fed (stream (last_groups G0 rs)) rits ->
+    forall g0, In g0 G0 -> compose rs (parts g0) = None ->
+      ~ In (gid g0) (map fst (Edge.frames (snd (rrun Repaired (init_receiver cid false ll [c0]) rits)))).
+Proof. exact none_removes_frame. Qed.
+Print Assumptions C03_none_removes_frame.
+
+Theorem C03_tee_same_sequence :
+  forall nout req sits sid cidA llA ritsA cidB llB ritsB,
+    let G := groups_of sid (snd (srun (init_sender nout false req) sits)) in
+    Forall group_wf G -> Edge.fed (stream G) ritsA -> Edge.fed (stream G) ritsB ->
+    exists ka kb,
+      Edge.frames (snd (rrun Repaired (init_receiver cidA false llA [c0]) ritsA)) = map frame_of (firstn ka G) /\
+      Edge.frames (snd (rrun Repaired (init_receiver cidB false llB [c0]) ritsB)) = map frame_of (firstn kb G).
+Proof. exact tee_same_sequence. Qed.
+Print Assumptions C03_tee_same_sequence.
